@@ -16,14 +16,6 @@ Definition row_ok (row : N * N) (b : list entry) : Prop :=
   N.of_nat (length data) <? fst row = false /\
   exists rest, chunk_of v4 (snd row) (skipn (N.to_nat (fst row)) data) = Ok (b, rest).
 
-Fixpoint sumc (l : list (N * N)) : N := match l with [] => 0 | x :: r => snd x + sumc r end.
-Lemma fold_left_sumc l : forall a, fold_left (fun a b => a + snd b) l a = a + sumc l.
-Proof. induction l as [|x l IH]; intros a; cbn [fold_left sumc]; [lia|]. rewrite IH. lia. Qed.
-Lemma sumc_firstn k : forall l, sumc (firstn k l) <= sumc l.
-Proof. induction k as [|k IH]; intros [|x l]; cbn [firstn sumc]; try lia. specialize (IH l). lia. Qed.
-Lemma sumc_skipn k : forall l, sumc (skipn k l) <= sumc l.
-Proof. induction k as [|k IH]; intros [|x l]; cbn [skipn sumc]; try lia. specialize (IH l). lia. Qed.
-
 Lemma decode_blocks_ok l : forall bl acc, Forall2 row_ok l bl ->
   decode_blocks v4 data l acc = Ok (acc ++ concat bl).
 Proof.
@@ -33,12 +25,10 @@ Proof.
     rewrite (IH bl' _ Hrest). cbn [concat]. rewrite app_assoc. reflexivity.
 Qed.
 
-Lemma decode_group_ok l bl : Forall2 row_ok l bl -> sumc l < 4294967296 ->
+Lemma decode_group_ok l bl : Forall2 row_ok l bl ->
   decode_group v4 data l = Ok (concat bl).
 Proof.
-  intros H Hs. unfold decode_group. rewrite fold_left_sumc.
-  replace (4294967296 <=? 0 + sumc l) with false by lia.
-  rewrite decode_blocks_ok with (bl := bl) by exact H. reflexivity.
+  intros H. unfold decode_group. rewrite decode_blocks_ok with (bl := bl) by exact H. reflexivity.
 Qed.
 
 Lemma Forall2_firstn {A B} (R : A -> B -> Prop) k : forall l m, Forall2 R l m -> Forall2 R (firstn k l) (firstn k m).
@@ -47,23 +37,22 @@ Lemma Forall2_skipn {A B} (R : A -> B -> Prop) k : forall l m, Forall2 R l m -> 
 Proof. induction k as [|k IH]; intros l m H; [exact H|]. inversion H; subst; cbn [skipn]; auto. Qed.
 
 Lemma stitch_chunks size : (1 <= size)%nat -> forall fuel l bl acc,
-  (length l <= fuel)%nat -> Forall2 row_ok l bl -> sumc l < 4294967296 ->
+  (length l <= fuel)%nat -> Forall2 row_ok l bl ->
   let rs := map (decode_group v4 data) (chunks_of fuel size l) in
   existsb is_panic rs = false /\ stitch rs acc = Ok (acc ++ concat bl).
 Proof.
-  intros Hsize. induction fuel as [|fuel IH]; intros l bl acc Hlen H Hs.
+  intros Hsize. induction fuel as [|fuel IH]; intros l bl acc Hlen H.
   - destruct l; [|cbn [length] in Hlen; lia]. inversion H; subst. cbn. rewrite app_nil_r. split; reflexivity.
   - destruct l as [|x l].
     + inversion H; subst. cbn. rewrite app_nil_r. split; reflexivity.
     + cbn [chunks_of]. set (l0 := x :: l) in *. cbn [map].
       assert (Hg : decode_group v4 data (firstn size l0) = Ok (concat (firstn size bl))).
-      { apply decode_group_ok; [apply Forall2_firstn; exact H|]. pose proof (sumc_firstn size l0). lia. }
+      { apply decode_group_ok. apply Forall2_firstn. exact H. }
       rewrite Hg.
       assert (Hlen' : (length (skipn size l0) <= fuel)%nat).
       { rewrite skipn_length. unfold l0 in *. cbn [length] in *. lia. }
-      pose proof (sumc_skipn size l0) as Hsk.
       destruct (IH (skipn size l0) (skipn size bl) (acc ++ concat (firstn size bl)) Hlen'
-                   (Forall2_skipn _ size _ _ H) ltac:(lia)) as [Hp Hst].
+                   (Forall2_skipn _ size _ _ H)) as [Hp Hst].
       cbv zeta in Hp, Hst. split.
       * cbn [existsb is_panic]. exact Hp.
       * cbn [stitch]. rewrite Hst. rewrite <- app_assoc, <- concat_app, firstn_skipn. reflexivity.
@@ -71,10 +60,10 @@ Qed.
 
 (* every thread count gives the concatenation of the blocks *)
 Lemma L_decode_chunked_ok table bl threads : 1 <= threads ->
-  Forall2 row_ok table bl -> sumc table < 4294967296 ->
+  Forall2 row_ok table bl ->
   decode_chunked v4 data table threads = Ok (concat bl).
 Proof.
-  intros Ht H Hs. unfold decode_chunked.
+  intros Ht H. unfold decode_chunked.
   destruct table as [|x table].
   - inversion H; subst. reflexivity.
   - set (t := x :: table) in *.
@@ -82,7 +71,7 @@ Proof.
     { assert (1 <= (N.of_nat (length t) + threads - 1) / threads).
       { apply N.div_le_lower_bound; [lia|]. unfold t. cbn [length]. lia. }
       lia. }
-    destruct (stitch_chunks _ Hsize (length t) t bl [] (le_n _) H Hs) as [Hp Hst].
+    destruct (stitch_chunks _ Hsize (length t) t bl [] (le_n _) H) as [Hp Hst].
     cbv zeta in Hp, Hst. rewrite Hp. exact Hst.
 Qed.
 End Generic.
@@ -138,30 +127,21 @@ Proof.
     rewrite <- app_assoc. exact IH.
 Qed.
 
-Lemma sumc_combine_counts offs : forall (blocks : list (list entry)), length offs = length blocks ->
-  sumc (combine offs (map (fun b => N.of_nat (length b)) blocks)) = N.of_nat (length (concat blocks)).
-Proof.
-  induction offs as [|o offs IH]; intros [|b blocks] Hl; try discriminate; [reflexivity|].
-  cbn [map combine sumc concat snd].
-  rewrite IH by (cbn [length] in Hl; lia). rewrite app_length. lia.
-Qed.
-
 Lemma block_offsets_length bbs : forall s, length (block_offsets s bbs) = length bbs.
 Proof. induction bbs as [|b r IH]; intros s; [reflexivity|]. cbn [block_offsets length]. rewrite IH. reflexivity. Qed.
 
 (* Version 2/3: decoding the blocks named by git's offset table on any number of threads gives the
    entries git stored, and so does serial decoding of the same bytes. *)
 Lemma L_thread_limit_irrelevant_v23 blocks pre rest threads :
-  Forall (Forall wf_entry) blocks -> N.of_nat (length (concat blocks)) < 4294967296 -> 1 <= threads ->
+  Forall (Forall wf_entry) blocks -> 1 <= threads ->
   let bbs := map (git_entries false [] false) blocks in
   let data := pre ++ concat bbs ++ rest in
   let table := combine (block_offsets (N.of_nat (length pre)) bbs) (map (fun b => N.of_nat (length b)) blocks) in
   decode_chunked false data table threads = Ok (concat blocks) /\
   chunk_of false (N.of_nat (length (concat blocks))) (concat bbs ++ rest) = Ok (concat blocks, rest).
 Proof.
-  intros HF Hn Ht. cbv zeta. split.
-  - apply L_decode_chunked_ok; [exact Ht|apply layout_rows; exact HF|].
-    rewrite sumc_combine_counts; [exact Hn|]. rewrite block_offsets_length, map_length. reflexivity.
+  intros HF Ht. cbv zeta. split.
+  - apply L_decode_chunked_ok; [exact Ht|apply layout_rows; exact HF].
   - rewrite <- git_entries_v23_concat. unfold chunk_of.
     apply (L_chunk_v23 (concat blocks) _ None rest []).
     + apply Forall_forall. intros e He. apply in_concat in He. destruct He as [b [Hb He]].
